@@ -23,6 +23,12 @@ CHECK = {'level': 'model_checking',
             'rewrite': {'sync': ['internal', 'sdk']},
             'shards': {'quick': 8, 'thorough': 8},
             'timeout': {'quick': 900, 'thorough': 3000}},
+           {'name': 'coreauto',
+            'pkg': './internal/verifh/core',
+            'run': '^TestVerifC10CoreAuto$',
+            'rewrite': {'sync': ['internal', 'sdk']},
+            'shards': {'quick': 8, 'thorough': 8},
+            'timeout': {'quick': 900, 'thorough': 3000}},
            {'name': 'corehist',
             'pkg': './internal/verifh/core',
             'run': '^TestVerifC10CoreHist$',
